@@ -225,7 +225,7 @@ theorem dstep_abs (d : Den) (c : Bytes) : (dstep d c).abs = d.abs := by
   by_cases h1 : c = [46]
   · simp [h1]
   · by_cases h2 : c = dotdot
-    · simp only [h1, h2, if_true]; cases d.comps <;> rfl
+    · simp only [h2, if_true]; cases d.comps <;> rfl
     · simp [h1, h2]
 
 theorem sstep_raw (d : Den) (hv : d.Valid) (c : Bytes) (hsf : ∀ x ∈ c, isSep x = false) :
@@ -243,7 +243,7 @@ theorem sstep_raw (d : Den) (hv : d.Valid) (c : Bytes) (hsf : ∀ x ∈ c, isSep
         | zero =>
           have hr0 : raw d = [] := (raw_eq_nil d hv).mpr ⟨hc, hu⟩
           rw [if_neg (by simp [hr0]), if_neg h1, hr0]
-          simp [raw, h1, hu, renderItems]
+          simp [raw, renderItems]
         | succ n =>
           have hr : raw d = push d.abs (renderItems d.abs (List.replicate n dotdot)) dotdot := by
             simp [raw, hc, hu, List.replicate_succ, renderItems]
